@@ -459,6 +459,10 @@ func NewMessage(md protoreflect.MessageDescriptor) protoreflect.Message { return
 func HistoryDescriptor() protoreflect.MessageDescriptor { return historyDescriptor() }
 
 // PopulateCustom is Populate with a hook that may supply the value of a field itself (return ok=true).
+// PopulateListLen: how many elements Populate puts into a repeated message field (set before building, not while
+// builders run concurrently).
+var PopulateListLen = 1
+
 func PopulateCustom(md protoreflect.MessageDescriptor, maxPerType int, str func(path string, fd protoreflect.FieldDescriptor) string,
 	custom func(fd protoreflect.FieldDescriptor, path string) (protoreflect.Value, bool)) proto.Message {
 	count := map[protoreflect.FullName]int{}
@@ -541,6 +545,11 @@ func PopulateCustom(md protoreflect.MessageDescriptor, maxPerType int, str func(
 				fill(child, p)
 				if fd.IsList() {
 					m.Mutable(fd).List().Append(protoreflect.ValueOfMessage(child))
+					for k := 1; k < PopulateListLen; k++ {
+						more := newMessage(sub)
+						fill(more, fmt.Sprintf("%s[%d]", p, k))
+						m.Mutable(fd).List().Append(protoreflect.ValueOfMessage(more))
+					}
 				} else {
 					m.Set(fd, protoreflect.ValueOfMessage(child))
 				}
